@@ -634,6 +634,13 @@ func (s *Store) Open() (retErr error) {
 			}
 		}()
 
+		if fsutil.PathExists(s.peersPath) {
+			// A node recovery is requested. It rebuilds the database from the snapshot
+			// store and the log, writes that as a new snapshot, and deletes the log, so
+			// the existing SQLite file must not be reused in place of that snapshot.
+			s.logger.Printf("node recovery requested, existing SQLite file will not be reused")
+			return nil
+		}
 		if !fsutil.PathExists(s.cleanSnapshotPath) {
 			return nil
 		}
